@@ -330,8 +330,10 @@ class Ctx:
             "violations": violations,
         }
         problems = validate_evidence(ev)
-        if problems:
+        if problems and not violations:
             raise HarnessError("evidence does not validate: " + "; ".join(problems))
+        if problems:
+            ev["coverage"]["evidence_problems"] = problems      # the run reports a violation anyway
         tmp = os.path.join(EVID, f".{self.pid}.json.tmp")
         with open(tmp, "w") as fh:
             json.dump(ev, fh, indent=1, default=str)
@@ -400,4 +402,10 @@ def main(run_fn_by_pid):
         sys.exit(2)
     except subprocess.TimeoutExpired as e:
         print(f"HARNESS-TIMEOUT {a.pid}: {e}", file=sys.stderr)
+        sys.exit(2)
+    except SystemExit:
+        raise
+    except BaseException:  # noqa  — a bug in the harness is never a verdict about the property
+        traceback.print_exc()
+        print(f"HARNESS-ERROR {a.pid}: unexpected exception in the check itself", file=sys.stderr)
         sys.exit(2)
